@@ -502,12 +502,12 @@ def units(tier, seed):
         out.append(Unit('C17/' + name, 'symx.props.c17', func, kw, o))
 
     for D, P, shape in ([(3, 2, (2,)), (2, 1, (2, 2)), (3, 2, ())] if tier == 'quick' else
-                        [(3, 2, (2,)), (2, 1, (2, 2)), (3, 2, ()), (4, 3, (2, 1, 2)), (1, 2, (2,))]):
+                        [(3, 2, (2,)), (2, 1, (2, 2)), (3, 2, ()), (4, 3, (2, 1, 2)), (1, 2, (2,)), (6, 4, (3,)), (2, 3, (2, 2, 2)), (5, 1, (1, 3))]):
         add('dirs/D%d,P%d,%s' % (D, P, shape), 'h_dirs', D=D, P=P, shape=shape)
     add('dirs/integer base point/D3,P2', 'h_dirs_intbase', D=3, P=2)
-    for shape in [(3,), (2, 3), (3, 2), (2, 2), (2, 3, 2), ()]:
+    for shape in [(3,), (2, 3), (3, 2), (2, 2), (2, 3, 2), ()] + ([(4,), (1, 3), (3, 1, 2), (1,), (2, 2, 2, 2)] if tier != 'quick' else []):
         add('seed round trip/%s' % (shape,), 'h_seed_roundtrip', shape=shape)
-    for n in ((2, 3) if tier == 'quick' else (1, 2, 3, 4)):
+    for n in ((2, 3) if tier == 'quick' else (1, 2, 3, 4, 5)):
         for uplo in ('F', 'L', 'U'):
             add('symvec/ndarray/n%d,%s' % (n, uplo), 'h_symvec', n=n, uplo=uplo, kind='ndarray')
             add('symvec/utpm/n%d,%s' % (n, uplo), 'h_symvec', n=n, uplo=uplo, kind='utpm', D=2, P=2)
@@ -524,6 +524,9 @@ def units(tier, seed):
     add('pivots/UTPM.piv2mat+piv2det/n3,P2', 'h_pivots_utpm', opts={'path_budget': 400, 'validate_paths': 6}, n=3, P=2)
     for s in (1, 2, -1, 0, -3):
         add('shift(%d)/D4,P2' % s, 'h_shift', D=4, P=2, s=s)
+    if tier != 'quick':
+        for s in (3, 5, 6, -2, -5, -7):
+            add('shift(%d)/D6,P3' % s, 'h_shift', D=6, P=3, s=s)
     for n in ((2, 3) if tier == 'quick' else (2, 3, 4)):
         add('pivots/lu-model/n%d' % n, 'h_pivots', opts={'path_budget': 200, 'validate_paths': 30}, n=n)
     for n in ((2, 3, 4) if tier == 'quick' else (2, 3, 4, 5, 6)):
